@@ -3,12 +3,15 @@ package mon
 import (
 	"context"
 	"encoding/json"
+	"errors"
 	"fmt"
+	"net/http"
 	"net/http/httptest"
 	"net/url"
 	"strings"
 	"time"
 
+	"github.com/go-jose/go-jose/v3"
 	"golang.org/x/net/html"
 
 	"github.com/ory/fosite"
@@ -344,6 +347,115 @@ func c20resp(c *run.Ctx) {
 		}
 	}
 	c.Sample(map[string]interface{}{"errors": len(names), "payloads": c20Payloads[:6]})
+	c20Custom(c)
+}
+
+// c20PageMode is an integrator-supplied response mode written the way the ResponseModeHandler contract describes: it writes
+// the page and relies on fosite for the cache directives ("Following headers are expected to be set by default").
+type c20PageMode struct{}
+
+func (c20PageMode) ResponseModes() fosite.ResponseModeTypes {
+	return fosite.ResponseModeTypes{"page_post"}
+}
+func (c20PageMode) WriteAuthorizeResponse(ctx context.Context, rw http.ResponseWriter, ar fosite.AuthorizeRequester, resp fosite.AuthorizeResponder) {
+	rw.Header().Set("Content-Type", "text/html;charset=UTF-8")
+	fosite.WriteAuthorizeFormPostResponse(ar.GetRedirectURI().String(), resp.GetParameters(), fosite.DefaultFormPostTemplate, rw)
+}
+func (c20PageMode) WriteAuthorizeError(ctx context.Context, rw http.ResponseWriter, ar fosite.AuthorizeRequester, err error) {
+	rfc := fosite.ErrorToRFC6749Error(err)
+	rw.Header().Set("Content-Type", "text/html;charset=UTF-8")
+	fosite.WriteAuthorizeFormPostResponse(ar.GetRedirectURI().String(), rfc.ToValues(), fosite.DefaultFormPostTemplate, rw)
+}
+
+// c20FailFetcher is an integrator-supplied JWKS fetcher whose failures are ordinary Go errors carrying internal detail.
+type c20FailFetcher struct{}
+
+const fetchCanary = "INTERNAL-FETCH-CANARY-77d1 dial tcp 10.1.2.3:3128: proxy refused"
+
+func (c20FailFetcher) Resolve(ctx context.Context, location string, ignoreCache bool) (*jose.JSONWebKeySet, error) {
+	return nil, errors.New(fetchCanary)
+}
+
+// c20Custom: the cache directives and the debug-confinement rule also hold when the integrator plugs in a custom response
+// mode or a custom key fetcher.
+func c20Custom(c *run.Ctx) {
+	if !c.Mine(7) && c.NShards > 7 {
+		return
+	}
+	ctx := context.Background()
+	keys := world.GetKeys()
+	for _, expose := range []bool{false, true} {
+		w := world.New(world.Opts{Cfg: func(cfg *fosite.Config) {
+			cfg.SendDebugMessagesToClients = expose
+			cfg.ResponseModeHandlerExtension = c20PageMode{}
+			cfg.JWKSFetcherStrategy = c20FailFetcher{}
+		}})
+		w.AddClient(world.ClientSpec{ID: "c20x", Kind: "rich", Secret: "s20x", AuthMethod: "client_secret_basic", RedirectURIs: []string{"https://c20x.example/cb"}, GrantTypes: world.AllGrants,
+			ResponseTypes: world.AllResponseTypes, Scopes: []string{"openid", "fosite"}, ResponseModes: append(append([]fosite.ResponseModeType{}, world.AllModes...), "page_post")})
+		w.AddClient(world.ClientSpec{ID: "c20j", Kind: "oidc", Secret: "s20j", AuthMethod: "client_secret_basic", JWKSURI: "https://keys.example/c20j.json", RequestURIs: []string{"https://client.example/c20j.jwt"},
+			RedirectURIs: []string{"https://c20j.example/cb"}, GrantTypes: world.AllGrants, ResponseTypes: world.AllResponseTypes, Scopes: []string{"openid", "fosite"}})
+		// ---- custom response mode
+		for _, rt := range []string{"code", "token", "code id_token"} {
+			q := url.Values{"client_id": {"c20x"}, "response_type": {rt}, "scope": {"openid fosite"}, "state": {"state-0123456789"}, "nonce": {"nonce-0123456789"}, "redirect_uri": {"https://c20x.example/cb"}, "response_mode": {"page_post"}}
+			for _, deny := range []bool{false, true} {
+				out := w.Authorize(q, world.Consent{Deny: deny})
+				c.Case(fmt.Sprintf("custom-response-mode rt=%q denied=%v status=%d err=%s", rt, deny, out.Status, out.ErrName))
+				c.Count("c20_custom_mode_writes", 1)
+				if !cacheHeadersOK(out.Header) {
+					c.Violate(run.Violation{Kind: "cache-headers-missing", Key: fmt.Sprintf("cache-headers-missing custom response mode error=%v", out.Err != nil), Detail: fmt.Sprintf("rt=%s denied=%v headers=%v", rt, deny, out.Header)})
+				}
+			}
+		}
+		names := []string{"ErrAccessDenied", "ErrServerError", "ErrInvalidScope", "ErrLoginRequired", "ErrInvalidRequest", "ErrTemporarilyUnavailable"}
+		for _, en := range names {
+			r := httptest.NewRequest("GET", "https://as.example/oauth2/auth?"+url.Values{"client_id": {"c20x"}, "response_type": {"code"}, "scope": {"fosite"}, "state": {"state-0123456789"},
+				"redirect_uri": {"https://c20x.example/cb"}, "response_mode": {"page_post"}}.Encode(), nil)
+			ar, err := w.P.NewAuthorizeRequest(ctx, r)
+			if err != nil {
+				c.Inconcl("custom response mode request refused: " + world.ErrDetail(err))
+				continue
+			}
+			rec := httptest.NewRecorder()
+			w.P.WriteAuthorizeError(ctx, rec, ar, c20Errors[en].WithHint(hintCanary).WithDebug(debugCanary))
+			c.Case("custom-response-mode WriteAuthorizeError " + en)
+			c.Count("c20_custom_mode_writes", 1)
+			if !cacheHeadersOK(rec.Header()) {
+				c.Violate(run.Violation{Kind: "cache-headers-missing", Key: "cache-headers-missing custom response mode error=true", Detail: fmt.Sprintf("%s headers=%v", en, rec.Header())})
+			}
+		}
+		// ---- failing custom key fetcher: its error text is internal detail
+		obj := world.SignJWT(keys.ClientRSA[0], "RS256", map[string]interface{}{"kid": "k0"}, map[string]interface{}{"iss": "c20j", "aud": world.Issuer, "client_id": "c20j", "response_type": "code",
+			"scope": "openid fosite", "state": "object-state-0123456789", "redirect_uri": "https://c20j.example/cb", "exp": time.Now().Add(time.Hour).Unix()})
+		w.Fetch = func(u string) (int, string) { return 200, obj }
+		q := url.Values{"client_id": {"c20j"}, "response_type": {"code"}, "scope": {"openid"}, "state": {"query-state-0123456789"}, "redirect_uri": {"https://c20j.example/cb"}}
+		leak := func(where, text string) {
+			c.Case(fmt.Sprintf("failing-key-fetcher %s expose=%v leaked=%v", where, expose, strings.Contains(text, "FETCH-CANARY")))
+			c.Count("c20_fetcher_failures_written", 1)
+			if !expose && strings.Contains(text, "FETCH-CANARY") {
+				c.Violate(run.Violation{Kind: "debug-leaked", Key: "debug-leaked key-fetcher error text " + where, Detail: "the text of an internal error reached the client although debug exposure is off: " + text})
+			}
+		}
+		for _, via := range []string{"request", "request_uri"} {
+			qq := url.Values{}
+			for k, v := range q {
+				qq[k] = v
+			}
+			if via == "request" {
+				qq.Set("request", obj)
+			} else {
+				qq.Set("request_uri", "https://client.example/c20j.jwt")
+			}
+			out := w.Authorize(qq, world.Consent{})
+			if out.Err == nil {
+				c.Inconcl("request object accepted although the key fetcher fails")
+			}
+			leak("authorize "+via, out.Location+" "+out.Body)
+			if via == "request" {
+				p := w.PAR(qq, world.Basic("c20j", "s20j"))
+				leak("par "+via, p.Body)
+			}
+		}
+	}
 }
 
 func foreignElements(n *html.Node) string {
